@@ -22,6 +22,7 @@ CLAIMS = {
     "C12": ("5.C12", "Unique injected exception instances in workers, factory calls and callbacks; capacity probe, sibling progress and the identity of what flush/gather_and_close raise."),
     "C13": ("5.C13", "flush (1-3 overlapping) at every boundary of runs with tasks ending, being cancelled and held in slow callbacks; forget-state interval model (must-know / may-forget / must-forget)."),
     "C14": ("5.C14", "stop(n)/stop_all on SimpleTaskPool histories with gaps; returned ids vs ledger, exactly those workers observe one cancellation."),
+    "C15": ("5.C15", "Directed family over (class, old size, new size, running, waiting) x seeded timing: getter vs configured maximum, limit in force after assignment, wake-up of waiting spawners, negative values. Reports the recorded finding F-SIZE; every other oracle is strict."),
 }
 
 NOT_YET = {}
